@@ -267,20 +267,53 @@ open MosnVerif.Model MosnVerif.Model.EDF MosnVerif.Model.EdfHeap MosnVerif.Model
 last and never in between: the lock is held from before the peek until after the fix. -/
 theorem edf_lock_discipline : lockHeld EdfLock.nextAndPush = true ∧ lockHeld EdfLock.add = true := by decide
 
-/-- **picks_serializable**: if a step program holds the lock from before its first step until after its last, then for
-every number of concurrent calls, every schedule (complete or not) and every start state: the calls that have returned
-are exactly those that released the mutex (`done`, no call twice), and their return values, the state they leave when
-nobody is inside, are those of executing these calls ONE AFTER THE OTHER in the order `done`. -/
+/-- **calls_serializable**: every call may run its own step program (`Add` or `NextAndPush`, any arguments). If each
+program holds the lock from before its first step until after its last, then for every number of concurrent calls,
+every schedule (complete or not) and every start state: the calls that have returned are exactly those that released
+the mutex (`done`, no call twice), and their results and the state they leave when nobody is inside are those of
+executing these calls ONE AFTER THE OTHER in the order `done`. -/
+theorem calls_serializable (calls : Nat → Call Local) (hl : ∀ t, lockHeld (calls t).prog = true) (wf : Nat → Rat)
+    (s0 : HSched) (sched : List Nat) :
+    let c := runSched (exec wf) (initConf calls s0) sched
+    let ser := serial (exec wf) calls c.done s0
+    c.done.Nodup ∧ (∀ t, (c.threads t).todo = [] ↔ t ∈ c.done) ∧
+    returned c = ser.2.map (·.2.result) ∧ (c.holder = none → c.shared = ser.1) := by
+  intro c ser
+  have I : SerInv (exec wf) calls s0 c := inv_run _ _ _ hl sched _ (inv_init _ _ _)
+  exact ⟨I.nodup, finished_iff hl I, results_eq I (·.result), I.idle⟩
+
+/-- **picks_serializable**: if the step program of `NextAndPush` holds the lock from before the peek until after the
+fix, then for every number of threads and every schedule the picks handed to the callers that have returned are those
+of executing the calls one after the other in some order (the order `done` in which they left the critical section). -/
 theorem picks_serializable (prog : List EdfLock.Step) (hl : lockHeld prog = true) (wf : Nat → Rat) (s0 : HSched)
     (sched : List Nat) :
     let c := runSched (exec wf) (initConf (napCalls prog) s0) sched
     let ser := serial (exec wf) (napCalls prog) c.done s0
     c.done.Nodup ∧ (∀ t, (c.threads t).todo = [] ↔ t ∈ c.done) ∧
-    returned c = ser.2.map (·.2.result) ∧ (c.holder = none → c.shared = ser.1) := by
-  intro c ser
-  have I : SerInv (exec wf) (napCalls prog) s0 c :=
-    inv_run _ _ _ (fun _ => hl) sched _ (inv_init _ _ _)
-  exact ⟨I.nodup, finished_iff (fun _ => hl) I, results_eq I (·.result), I.idle⟩
+    returned c = ser.2.map (·.2.result) ∧ (c.holder = none → c.shared = ser.1) :=
+  calls_serializable (napCalls prog) (fun _ => hl) wf s0 sched
+
+/-- the regenerated critical sections, executed alone, are the sequential operations of the heap scheduler: `Add` is
+`HSched.add` (push with `currentTime + 1/weight` and a fresh tick), `NextAndPush` is `HSched.nextAndPush`. -/
+theorem critical_sections_are_sequential_ops (wf : Nat → Rat) (s : HSched) (item : Nat) (w : Rat) :
+    (runBody (exec wf) (middle EdfLock.add) s { arg := (item, w) }).1 = s.add item w ∧
+    (runBody (exec wf) (middle EdfLock.nextAndPush) s {}).1 = (seqCall s wf).2 ∧
+    (runBody (exec wf) (middle EdfLock.nextAndPush) s {}).2.result = some (seqCall s wf).1 :=
+  ⟨add_body_eq wf s item w, (body_eq_seqCall wf s).1, (body_eq_seqCall wf s).2⟩
+
+-- non-vacuity of the mixed form: call 0 is `Add(host 2, weight 5)`, calls 1 and 2 are `NextAndPush`, interleaved on the
+-- scheduler of weights 3, 2: the calls leave in the order 1, 0, 2; three entries are queued afterwards; call 1 is served
+-- host 0 and call 2 host 1 (the added host 2 has deadline 1/3 + 1/5 > 1/2)
+example :
+    let calls : Nat → Call Local := fun t =>
+      if t = 0 then { prog := EdfLock.add, l0 := { arg := (2, 5) } } else { prog := EdfLock.nextAndPush, l0 := {} }
+    let c := runSched (exec (wrrWeight [3, 2, 5])) (initConf calls (HSched.initWith (wrrWeight [3, 2, 5]) 2))
+      ([1, 1, 0, 2, 1, 0] ++ List.replicate 10 1 ++ List.replicate 5 0 ++ List.replicate 12 2)
+    (∀ t, lockHeld (calls t).prog = true) ∧ c.done = [1, 0, 2] ∧ c.shared.items.size = 3 ∧
+      returned c = [some (some 0), none, some (some 1)] := by
+  refine ⟨?_, by decide +kernel, by decide +kernel, by decide +kernel⟩
+  intro t
+  by_cases h : t = 0 <;> simp [h] <;> decide
 
 /-- **nextAndPush_serializable**: for the regenerated `NextAndPush`: under every schedule of every number of concurrent
 callers the returned hosts, in the order the callers left the critical section, are the picks of the sequential
